@@ -30,6 +30,7 @@ func main() {
 	}{
 		{"regex", genRegex},
 		{"registry", genRegistry},
+		{"ast", genAst},
 	}
 	failed := false
 	for _, s := range steps {
